@@ -119,6 +119,32 @@ class Worker:
             return None
 
 
+def cpu_seconds(pid):
+    """user+system CPU time of a process so far (None when it is gone)"""
+    try:
+        with open("/proc/%d/stat" % pid) as f:
+            fields = f.read().rsplit(")", 1)[1].split()
+        return (int(fields[11]) + int(fields[12])) / os.sysconf("SC_CLK_TCK")
+    except Exception:
+        return None
+
+
+def stalled(w, stall_s):
+    """A worker hangs when one run index has consumed stall_s CPU-seconds without finishing
+    (wall-clock alone misjudges a busy machine: a 7 s run once exceeded 120 s of wall-clock
+    while other builds were running), or made no progress for 15 x stall_s of wall-clock
+    (a worker that is blocked rather than spinning)."""
+    wall = time.time() - w.last_change
+    if wall <= stall_s:
+        return False
+    if wall > 15 * stall_s:
+        return True
+    now, then = cpu_seconds(w.proc.pid), getattr(w, "cpu_at_change", None)
+    if now is None:
+        return False
+    return now - (then or 0.0) > stall_s
+
+
 def run_workers(prop, seed, tier, total, nworkers, bindir, extra, stall_s, engine=None):
     """Run `total` run indices over `nworkers` processes; returns (summaries, crashes)."""
     tmp = tempfile.mkdtemp(prefix="falcon-sim-", dir=os.path.join(VERIF, "work"))
@@ -137,13 +163,13 @@ def run_workers(prop, seed, tier, total, nworkers, bindir, extra, stall_s, engin
             rc = w.proc.poll()
             idx = w.progress_index()
             if idx != w.last_progress:
-                w.last_progress, w.last_change = idx, time.time()
+                w.last_progress, w.last_change, w.cpu_at_change = idx, time.time(), cpu_seconds(w.proc.pid)
             if rc is not None:
                 pending.remove(w)
                 w.fout.close()
                 if rc != 0:
                     crashes.append({"worker": w.wid, "kind": "abort", "rc": rc, "index": idx, "lo": w.lo, "hi": w.hi})
-            elif time.time() - w.last_change > stall_s:
+            elif stalled(w, stall_s):
                 w.proc.kill()
                 w.proc.wait()
                 pending.remove(w)
@@ -273,7 +299,7 @@ def check(prop, tier, seed, nworkers, scale):
     log("VERIF_SEED=%d property=%s tier=%s workers=%d" % (seed, prop, tier, nworkers))
     build()
     total = max(nworkers, int(BUDGET[(prop, tier)] * scale))
-    stall_s = 60
+    stall_s = 120
     known = load_known()
     summaries, crashes, hashes, tmp = run_workers(prop, seed, tier, total, nworkers, BIN, [], stall_s)
     for c in crashes:
